@@ -18,11 +18,11 @@ import shutil
 
 import vlib
 
-PROGRAMS_QUICK = ["basic", "closures"]
-PROGRAMS_THOROUGH = ["basic", "closures", "globals", "example1", "interfaces", "fields"]
+PROGRAMS_QUICK = ["globals", "closures"]
+PROGRAMS_THOROUGH = ["globals", "closures", "basic", "example1", "interfaces", "fields"]
 # run specs of c20racer; runs without report-summaries first, so that a leftover writer goroutine cannot disturb them
-RUNS_QUICK = {"basic": "none;rc,rp;od;nr=0;rs;rs;rs,rc,rp,nr=3",
-              "closures": "od,rc;nr=2;rs,od;rs,od;rs,nr=0"}
+RUNS_QUICK = {"globals": "none;od,rc,rp;nr=0;rs;rs;rs,rc,rp,nr=3",
+              "closures": "rc,rp;od;nr=2;rs,od;rs,od;rs,nr=1"}
 RUNS_THOROUGH = "none;none;rc,rp;rc,rp;od;od,rc,rp;nr=0;nr=1;nr=5;rs;rs;rs;rs,rc,rp;rs,od;rs,od;rs,nr=0;rs,nr=0;rs,nr=7,rc"
 
 KNOWN_KEY = "report-summaries-writer"
